@@ -10,6 +10,12 @@ Decided clauses (no run of the library; MIR only):
     is `None` (abstract interpretation of that method with `next_older` inlined), so the first Up at a fresh
     prompt starts from the newest entry and the first Down yields the empty line.
  H3 recall does not modify the store: `next_older`/`next_newer` write no History field except the cursor.
+ H4 space accounting of a submit (linear domain shared with C03, every path of `push`, every buffer size): with `used`
+    the bytes in use before and `used'` after: (i) on every path that removes an older copy of the submitted line,
+    `used' = used` — re-submitting a stored line drops nothing else; (ii) on every path on which no stored bytes are moved
+    or discarded, either nothing was recorded (`used' = used`) or exactly the line and its terminator were appended
+    (`used' = used + len + 1`); (iii) whenever `used + len + 1 <= capacity` and the line is recorded without a duplicate,
+    nothing is evicted (`used' = used + len + 1`): the oldest are dropped only when necessary.
 Not decided: order, deduplication and minimal eviction over arbitrarily long histories (content properties of
 the byte buffer), the record-iff-fits guard as a value (see C03 for its arithmetic obligations).
 """
@@ -133,4 +139,73 @@ def run(ctx, res):
                 res.oblige("H3|%s|%s|%s" % (cfg, nav, h[3][ci][:3]), good,
                            violation=None if good else dict(rule='C10.recall-pure', key="C10|recall-pure|%s" % nav,
                                                             msg="History::%s modifies the stored entries" % nav))
+    check_space_accounting(ctx, res)
     res.exhaustive = True
+
+
+def check_space_accounting(ctx, res):
+    """H4"""
+    from .. import absint, fm
+    from . import C03
+    from ..runner import Result
+    lib = lib_crate(ctx.crates('default'))
+    if not session.methods_of(lib, 'history::History'):
+        return
+    old = absint.WIDEN_AT
+    absint.WIDEN_AT = 16
+    try:
+        sites = {}
+        rule = C03.E3(lib, sites, {})
+        inv, keymap = C03.inventory(lib)
+        rule.keymap = keymap
+        f = [x for x in session.methods_of(lib, 'history::History') if x.name == 'push'][0]
+        n = 0
+        for label, selfv, facts in C03.history_entries(Interp([lib], rule)):
+            I = Interp([lib], rule, max_worlds=60000)
+            rule.ctx = 'push ' + label
+            args, _ = C03.sym_args(rule, f, ('ref', (-1, 0, ())))
+            exits = I.run(f, args, facts, {(-1, 0): selfv})
+            ui = I.field_index('history::History', 'used')
+            tlen = C03.L(args[1][2])
+            used0 = fm.lin_atom('used0')
+            for w, rv in exits:
+                u = C03.L(w.store[(-1, 0)][3][ui])
+                marks = sorted(a for c in w.st for a in fm.atoms_of(c) if a.startswith('$copy_within'))
+                n += 1
+                if u is None:
+                    res.oblige("H4|%s|nonlinear" % label, False, violation=dict(
+                        rule='C10.accounting', key="C10|accounting|nonlinear", msg="History::push: `used` is not a linear quantity at an exit"))
+                    continue
+                def eq(a, b):
+                    return rule.prove(w, fm.le(a, b)) and rule.prove(w, fm.le(b, a))
+                grown = fm.add(fm.add(used0, tlen), fm.lin_const(1))
+                dedupe = any('#0@' in m for m in marks)       # the first copy_within of push closes the gap of an older copy
+                evict = any('#1@' in m for m in marks)
+                if dedupe:
+                    good = eq(u, used0)
+                    why = "a path that removes an older copy of the submitted line ends with used' != used: other entries are dropped too"
+                elif not evict:
+                    good = eq(u, used0) or eq(u, grown) or eq(u, fm.add(tlen, fm.lin_const(1)))
+                    why = "a path that moves no stored bytes ends with used' that is neither used nor used + len + 1 (nor len + 1 after dropping everything)"
+                else:
+                    # eviction happened: it must have been necessary
+                    fits = fm.le(grown, fm.lin_atom('cap(H)'))
+                    good = not rule.feasible(w, [fits])
+                    why = "entries are evicted on a path where used + len + 1 <= capacity (eviction was not necessary)"
+                res.oblige("H4|%s|%s|%s" % (label, marks, fm.fmt(u)), good, sample="push %s: moves=%s used'=%s" % (label, marks, fm.fmt(u)),
+                           violation=None if good else dict(rule='C10.accounting', key="C10|accounting|%s" % ('dedupe' if dedupe else 'evict' if evict else 'plain'),
+                                                            msg="History::push: %s (used' = %s)" % (why, fm.fmt(u))))
+        if n < 6:
+            raise KeyError("History::push: only %d exits in the linear analysis" % n)
+        # H5: what the submitted line is compared with
+        if not rule.h_compares:
+            raise KeyError("History::push never compares the submitted line with stored text")
+        for fnp, span, tag, cx in rule.h_compares:
+            good = tag.endswith('^entry-start') or '^entry-start!' in tag
+            res.oblige("H5|%s|%s" % (span.split(':')[-2], tag), good, sample="compare with history slice %s" % tag, violation=None if good else dict(
+                rule='C10.whole-entry', key="C10|whole-entry|%s" % fnp,
+                msg="%s at %s compares the submitted line with a piece of the history buffer whose start is %s, i.e. not the start of a "
+                    "stored entry (0 or the byte after a NUL found by search): a line could be taken for a duplicate of part of another"
+                    % (fnp, span, tag.split('^')[-1])))
+    finally:
+        absint.WIDEN_AT = old
